@@ -58,6 +58,10 @@ Audit strata (send side, other blocking points, which timeout governs):
            socket freezes the whole process, so only the parent's subprocess timeout can see it -- child killed while
            the same scenario with an explicit vf.tls context finishes => 'whole-process-stalled'; both slow =>
            inconclusive.  Two explicit-context cases run always, as controls of the child harness.
+  single   Server / SmtpEdge (and the relays) configured with command_timeout ONLY (data_timeout left out: documented
+  timeout  to default to the command timeout): stalls / trickles inside DATA and after end-of-data judged as usual.
+           Mirror (data_timeout only): DATA phase judged; the command phase has nothing configured to bound it --
+           observed (unjudged/<driver>-data-timeout-only/...), never judged.
   split    'which timeout governs': only the timeout documented for the stalled step is T, the others are 1000 s
            (relay: connect -> connect_timeout; command replies, STARTTLS handshake, AUTH -> command_timeout;
            message send and end-of-data reply -> data_timeout; banner and immediate-TLS handshake: connect and
@@ -188,7 +192,7 @@ REQUIRED_HITS = ['http-reuse-judged', 'relay-reuse-judged', 'relay-probe-judged'
                  'relay-stall-judged', 'relay-trickle-judged', 'relay-error-class-checked',
                  'relay-client-greenlet-checked', 'pipe-stall-judged', 'http-stall-judged',
                  'control-succeeded', 'server-write-stall-judged', 'relay-send-stall-judged',
-                 'idle-expiry-judged', 'relay-tls-idle-probe-judged', 'default-context-judged', 'http-client-greenlet-checked', 'mx-dns-stall-judged', 'split-timeouts-judged']
+                 'idle-expiry-judged', 'relay-tls-idle-probe-judged', 'default-context-judged', 'server-single-timeout-judged', 'http-client-greenlet-checked', 'mx-dns-stall-judged', 'split-timeouts-judged']
 SHARDS = {'quick': 4, 'thorough': 16}
 BUDGET = {'quick': 50, 'thorough': 600}
 
@@ -446,6 +450,11 @@ def run_server_case(sub):
     if sub.get('split'):
         # only the timeout that is documented to govern the stalled step is T, the other one is out of reach
         ct, dt = (BIG, T) if stage in DATA_GOVERNED_SERVER_STAGES else (T, BIG)
+    only = sub.get('only')
+    if only == 'command':
+        ct, dt = T, None        # the common configuration: data_timeout left out -> it defaults to command_timeout
+    elif only == 'data':
+        ct, dt = None, T        # mirror: no command timeout configured (command phase unbounded BY DESIGN: observed only)
     if driver == 'edge':
         edge = SmtpEdge(None, _NullQueue(), auth=cfg.get('auth', False), context=ctx, tls_immediately=imm,
                         command_timeout=ct, data_timeout=dt, hostname='c14.test')
@@ -556,6 +565,13 @@ def run_server_case(sub):
                            'client_saw_eof': cl.eof, 'replies_tail': cl.all[-160:]})
         res.obs.append(('server-end', (driver, stage, pattern, st.get('end'), last)))
         trick = pattern.startswith('trickle')
+        if only == 'data' and stage not in DATA_GOVERNED_SERVER_STAGES:
+            # nothing is configured to bound this step: observed, never judged
+            res.counts.append(('unjudged/%s-data-timeout-only/%s/%s/%s' % (driver, stage, pattern,
+                                                                          'ended' if ended else 'still-waiting'), 1))
+            return res
+        if only:
+            res.hits.append('server-single-timeout-judged')
         res.hits.append('edge-stall-judged' if driver == 'edge' else 'server-stall-judged')
         if sub.get('split'):
             res.hits.append('split-timeouts-judged')
@@ -704,6 +720,8 @@ def relay_timeouts(sub, T):
     """(connect, command, data).  Normally all T.  'split' cases: only the timeout(s) documented to govern the stalled
     step are T, the others are BIG (out of reach), so a step sitting in the wrong scope is 'still blocked'.  Banner
     and immediate-TLS handshake: the documentation does not say connect or command -- both are T there."""
+    if sub.get('only') == 'command':
+        return T, T, None
     if not sub.get('split'):
         return T, T, T
     st = sub['stage']
@@ -2424,7 +2442,7 @@ def _key(sub):
     T = sub.get('T_nominal', sub['T'])
     return (sub['side'], sub.get('proto'), sub['stage'], sub['pattern'], sub.get('pipelining'), sub.get('nrcpt'),
             bool(sub.get('tls')), bool(sub.get('idle')),
-            (sec['stage'], sec.get('mode'), sec.get('pattern')) if sec else None, sub.get('tls_mode'), sub.get('context'),
+            (sec['stage'], sec.get('mode'), sec.get('pattern')) if sec else None, sub.get('tls_mode'), sub.get('context'), sub.get('only'),
             bool(sub.get('split')), bool(sub.get('big')), T)
 
 
@@ -2548,6 +2566,25 @@ def all_subcases(tier, seed):
                     for s2 in ('mail', 'rcpt0', 'data', 'eod0', 'rset', 'quit'):
                         add(stall, side='relay', proto=proto, pipelining=pl, nrcpt=1, stage='none', pattern='stall',
                             T=T, idle=RELAY_IDLE, second={'stage': s2, 'mode': 'reuse'})
+    # server / SmtpEdge configured with ONE timeout only.  command_timeout only (data_timeout left out, the common
+    # configuration): the DATA phase must be bounded all the same (it defaults to the command timeout), and so is
+    # the step after end-of-data.  Mirror, data_timeout only: DATA phase judged, command phase observed.
+    T = TS[tier][-1]
+    for side in ('server', 'edge'):
+        for stage, pattern in (('data', 'silent'), ('data', 'silent-partial-body'), ('data', 'silent-after-line'),
+                               ('data', 'partial-eod'), ('data', 'trickle-bytes'), ('data', 'trickle-lines'),
+                               ('eod', 'silent'), ('eod', 'partial-line'), ('ehlo', 'silent'),
+                               ('tls-data', 'silent-partial-body'), ('tls-data', 'trickle-bytes')):
+            add(stall, side=side, stage=stage, pattern=pattern, T=T, only='command')
+        for stage, pattern in (('data', 'silent-partial-body'), ('data', 'trickle-bytes'), ('ehlo', 'silent'),
+                               ('eod', 'silent')):
+            add(stall, side=side, stage=stage, pattern=pattern, T=T, only='data')
+    # relay with command_timeout only (data_timeout defaults to it): message send and end-of-data reply stay bounded
+    for proto in ('smtp', 'lmtp'):
+        for pl in (False, True):
+            for stage, pattern in (('eod0', 'stall'), ('eod0', 'trickle')):
+                add(stall, side='relay', proto=proto, pipelining=pl, nrcpt=1, stage=stage, pattern=pattern, T=T,
+                    only='command')
     # relay given NO TLS context (library default), each case in a child process; plus explicit-context controls
     T = TS_SLOW[tier][0]
     for proto in ('smtp', 'lmtp'):
@@ -2643,6 +2680,8 @@ def mechanism(sub, clause, detail=None, label='first'):
         parts.append('pipelining' if sub['pipelining'] else 'no-pipelining')
     if sub.get('split'):
         clause += '-with-only-the-governing-timeout-set'
+    if sub.get('only'):
+        clause += '-with-%s-timeout-only' % sub['only']
     return '/'.join(parts) + '/' + clause
 
 
